@@ -278,6 +278,11 @@ class MovingWindow(BackgroundService):
 
         if isinstance(key, int):
             _logger.debug("Returning value at index %s ", key)
+            count_covered = self._buffer.count_covered()
+            if not -count_covered <= key < count_covered:
+                raise IndexError(
+                    f"Index {key} is out of range [-{count_covered}, {count_covered})"
+                )
             timestamp = self._buffer.get_timestamp(key)
             assert timestamp is not None
             return self._buffer[self._buffer.to_internal_index(timestamp)]
